@@ -121,10 +121,15 @@ func visitDeepC(fn *ssa.Function, f func(ssa.Instruction), stack map[*ssa.Functi
 	}
 	stack[fn] = true
 	defer delete(stack, fn)
+	var dead map[*ssa.BasicBlock]bool
 	if via != nil {
 		enteredBy[fn] = via
+		dead = infeasibleBlocks(fn)
 	}
 	for _, b := range fn.Blocks {
+		if dead[b] {
+			continue
+		}
 		for _, ins := range b.Instrs {
 			f(ins)
 			if h := helperCallee(ins); h != nil {
@@ -792,6 +797,30 @@ func structTail(r *ssa.Return, depth int) []*ssa.Return {
 			virtReturns[vr] = virtRet{pred: hr.Block(), succ: nil, real: hr}
 		}
 		out = append(out, vr)
+	}
+	return out
+}
+
+// infeasibleIn: blocks of a new helper that cannot execute for the call through which it was entered,
+// because they are guarded by a parameter the call binds to a constant of the other value
+// (`worker(x, true)` never runs the `if !flag` branch).
+func infeasibleBlocks(h *ssa.Function) map[*ssa.BasicBlock]bool {
+	out := map[*ssa.BasicBlock]bool{}
+	if gWorld == nil || !isNewHelper(h) {
+		return out
+	}
+	if _, ok := enteredBy[h]; !ok {
+		return out
+	}
+	for _, b := range h.Blocks {
+		if len(b.Instrs) == 0 {
+			continue
+		}
+		for _, f := range gWorld.factsAtKD(b.Instrs[0], false, 2) {
+			if f.Expr == "false == true" || f.Expr == "true == false" {
+				out[b] = true
+			}
+		}
 	}
 	return out
 }
